@@ -13,6 +13,13 @@
 (*    setcol    the caller replaces / edits a column of a table - an original or a RESULT -    *)
 (*              in place: T[col] = vals | T.col = vals | T.update({col: vals}) | T.col[pos] = v *)
 (*    setlst    the caller edits a list object in place (L[:] = vals)                          *)
+(*    raise     a call that legitimately RAISES - operands outside the statement's universe    *)
+(*              (complex numbers, bare objects: cmp, Cmp.__lt__, sorted(key = Cmp), sort,      *)
+(*              dictable.sort on throw-away operands), or a request the table cannot serve     *)
+(*              (a missing column, a key function that raises / has an unknown parameter /      *)
+(*              returns incomparable values, an unhashable listed value, a value order that is *)
+(*              no sequence).  Outcome = the exception class; the heap is unchanged.           *)
+(*    cmps      the caller evaluates cmp over a sample of the cmp universe (a matrix)          *)
 (* Law: the outcome of every call is the single-call law applied to the operands AS THEY ARE   *)
 (* AT THAT MOMENT; no call changes an object that exists already; the caller's edit of one      *)
 (* object changes that object only (a result shares nothing with its operand).                 *)
@@ -52,6 +59,17 @@ SortValStep(t, ords)     == [NoStep EXCEPT !.op = "sortval", !.src = t, !.ords =
 ListSortStep(l, how)     == [NoStep EXCEPT !.op = "listsort", !.lst = l, !.how = how]         \* how: "sort" | "Cmp"
 SetColStep(t, c, how, vals, pos) == [NoStep EXCEPT !.op = "setcol", !.src = t, !.col = c, !.how = how, !.vals = vals, !.pos = pos]
 SetLstStep(l, vals)      == [NoStep EXCEPT !.op = "setlst", !.lst = l, !.vals = vals]
+\* how: the way the call raises; t: the heap table it is made on (0: throw-away operands the driver builds for the call)
+RaiseStep(how, t)        == [NoStep EXCEPT !.op = "raise", !.how = how, !.src = t]
+CmpsStep                 == [NoStep EXCEPT !.op = "cmps"]
+FreeRaiseHows  == {"cmp_complex", "cmp_object", "cmp_nested", "cmp_dictval", "Cmp_lt", "Cmp_sorted", "sort_complex", "sort_object",
+                   "sort_notiter", "dsort_complex", "dsort_object"}
+TableRaiseHows == {"nocol", "nocol2", "valnocol", "fnraise", "fnnoarg", "fncomplex", "unhashable", "valnotiter"}
+\* the exception class the code documents / Python gives today (mechanism level, informational: the statement does not speak
+\* about calls outside its universe - named deviation OutsideDomain: the OUTCOME of such a call is not judged, what it leaves
+\* behind is)
+ExcOf(how) == IF how \in {"nocol", "nocol2", "valnocol"} THEN "KeyError" ELSE IF how = "fnraise" THEN "ZeroDivisionError" ELSE "TypeError"
+IsRaise(st) == st.op = "raise"
 IsCall(st) == st.op \in {"sort", "sortfn", "sortval", "listsort"}
 IsEdit(st) == st.op \in {"setcol", "setlst"}
 
@@ -78,6 +96,9 @@ Enabled(S, st) ==
       [] st.op = "listsort" -> st.lst \in 1..Len(S.lsts) /\ S.role[st.lst] = "v"
       [] st.op = "setcol" -> st.src \in 1..Len(S.tabs) /\ st.col \in ColsOf(S, st.src) /\ Len(st.vals) = Len(S.tabs[st.src])
       [] st.op = "setlst" -> st.lst \in 1..Len(S.lsts)
+      [] st.op = "raise"  -> IF st.src = 0 THEN st.how \in FreeRaiseHows
+                             ELSE st.how \in TableRaiseHows /\ st.src \in 1..Len(S.tabs) /\ "a" \in ColsOf(S, st.src)
+      [] st.op = "cmps"   -> TRUE
       [] OTHER -> FALSE
 \* the caller's own actions
 EditTable(S, st) == [S EXCEPT !.tabs[st.src] = [i \in 1..Len(@) |-> [@[i] EXCEPT ![st.col] = st.vals[i]]]]
@@ -91,6 +112,7 @@ Apply(C(_, _), S, st) ==
       [] st.op = "listsort" -> NewList(S, StableSort(C, S.lsts[st.lst]))
       [] st.op = "setcol"   -> EditTable(S, st)
       [] st.op = "setlst"   -> EditList(S, st)
+      [] st.op \in {"raise", "cmps"} -> S                   \* a call that raises leaves nothing behind; cmp allocates nothing
 
 \* ---- the steps a session offers in state S ----------------------------------------------------------
 Bys  == {<<"a">>, <<"b">>, <<"a", "b">>, <<"b", "a">>}
@@ -104,6 +126,7 @@ Calls(S) == {st \in {SortStep(t, b) : t \in 1..Len(S.tabs), b \in Bys}
                     \cup {SortFnStep(t, f) : t \in 1..Len(S.tabs), f \in Fns}
                     \cup {SortValStep(t, o) : t \in 1..Len(S.tabs), o \in {o \in OrdChoices(S) : OrdOK(o)}}
                     \cup {ListSortStep(l, h) : l \in ValueLists(S), h \in {"sort", "Cmp"}} : Enabled(S, st)}
+RaiseCalls(S) == {st \in {RaiseStep(h, 0) : h \in FreeRaiseHows} \cup {RaiseStep(h, t) : h \in TableRaiseHows, t \in 1..Len(S.tabs)} : Enabled(S, st)}
 \* the caller's edits: a column reversed (item assignment), rotated (attribute assignment), re-typed (every int replaced by the
 \* equal float and the other way round, through update: the table is equal by == and differs by type), its first element raised
 \* above and its last element lowered below everything (element assignment into the column the table holds); a list reversed,
